@@ -1,0 +1,33 @@
+//go:build verif
+
+// Verification hooks (build tag verif) for C05: thin exported wrappers around the unexported raft
+// commit/apply/ack path of this package so that an external harness can drive it with a real
+// raftconn.RaftNode object and a recording StorageService. No behaviour of its own.
+package engine
+
+import (
+	"github.com/openGemini/openGemini/lib/metaclient"
+	"github.com/openGemini/openGemini/lib/raftconn"
+)
+
+// VerifNewRaftEngine returns an EngineImpl with one partition (db, pt) whose raft node is `node`.
+func VerifNewRaftEngine(db string, pt uint32, node *raftconn.RaftNode) *EngineImpl {
+	e := &EngineImpl{DBPartitions: make(map[string]map[uint32]*DBPTInfo)}
+	dbPt := NewDBPTInfo(db, pt, "", "", nil, nil, nil)
+	dbPt.node = node
+	dbPt.proposeC = node.GetProposeC()
+	e.DBPartitions[db] = map[uint32]*DBPTInfo{pt: dbPt}
+	return e
+}
+
+func VerifReadCommitFromRaft(node *raftconn.RaftNode, client metaclient.MetaClient, storage StorageService) {
+	readCommitFromRaft(node, client, storage)
+}
+
+func VerifDealCommitData(node *raftconn.RaftNode, client metaclient.MetaClient, storage StorageService, data []byte, database string, ptId uint32) {
+	dealCommitData(node, client, storage, data, database, ptId)
+}
+
+func VerifReadReplayForReplication(replayC <-chan *raftconn.Commit, client metaclient.MetaClient, storage StorageService, db string, ptId uint32) {
+	readReplayForReplication(replayC, client, storage, db, ptId)
+}
